@@ -82,7 +82,8 @@ def run(ctx):
     cases, metas = [], []
     names_pool = ["", "a", "L", "R'", "é", "quote\"d", "x y", "g,1", "layer__7", "长"]
     for it in range(ctx.budget(70, 600)):
-        gd = G.gen_perm_graph(rng, cap=300, multiword=rng.random() < 0.25)
+        # every 5th graph has 12-100 layers, so that stored layer ids with two and more digits occur ("layer__10", "layer__37", ...)
+        gd = G.gen_deep_directed(rng, 400, min_layers=12) if it % 5 == 4 else G.gen_perm_graph(rng, cap=300, multiword=rng.random() < 0.25)
         k = len(gd["gens"])
         gnames = None if rng.random() < 0.4 else [rng.choice(names_pool) + str(i) for i in range(k)]
         name = rng.choice(["", "zoo", "lrx-5", "名前", "with space", "layer__3"])
